@@ -205,6 +205,20 @@ def r_copyshape(f):
                 R.inst(b.ident, "row_pair_mut(s, d): d - s == dest.1 - src.0.1 (got %r)" % (y - x,), ok)
                 if not ok:
                     R.fail(b.ident, "row-offset:%r" % (y - x,), "%s pairs source row %r with destination row %r: their distance is %r, not dest.1 - src.0.1 - the rows of the rectangle land on the wrong rows" % (b.ident, x, y, y - x), b.where(t["span"]))
+        # every row loop transfers cells: its body contains a slice copy (a loop over the rectangle's rows that copies nothing
+        # leaves the destination unchanged for that relative placement)
+        MOV = ("copy_from_slice", "clone_from_slice", "copy_within", "clone_from", "swap_with_slice")
+        heads = [bi for bi, t, fn in b.calls() if fn and fn["name"] in ("next", "next_back") and re.search(r"Range<usize>|Rev<|Take<|Skip<", " ".join(fn.get("args") or []) + (fn.get("self_ty") or ""))]
+        for hb_ in heads:
+            fwd = set(b.reachable(hb_))
+            body_blocks = {x for x in fwd if hb_ in b.reachable(x) and x != hb_} | {hb_}
+            if len(body_blocks) < 2:
+                continue
+            n += 1
+            has = any(fn2 and fn2["name"] in MOV for x in body_blocks for fn2 in [((b.blocks[x]["term"] or {}).get("func") or {}).get("fn")] if (b.blocks[x]["term"] or {}).get("k") == "call")
+            R.inst(b.ident, "the row loop headed at the %s() call copies cells in its body" % b.blocks[hb_]["term"]["func"]["fn"]["name"], has)
+            if not has:
+                R.fail(b.ident, "loop-without-copy", "%s: a loop over the rectangle's rows contains no slice copy: for that relative placement of source and destination nothing is transferred" % b.ident, b.where(b.blocks[hb_]["term"]["span"]))
         # same-row case: slice::copy_within(src.0.0..src.1.0, dest.0) on the row
         for bi, t, fn in b.calls():
             if fn and fn["path"] == "core::slice::<impl [T]>::copy_within" and len(t["args"]) == 3:
